@@ -136,7 +136,10 @@ func start(o Opts, file string) (*Inst, error) {
 	if url == "" {
 		url = fmt.Sprintf("nats://i%d:4222", seq.Add(1))
 	}
-	bus := nats.NewBus(url, o.Mode)
+	bus := nats.GetBus(url)
+	if bus == nil {
+		bus = nats.NewBus(url, o.Mode)
+	}
 	bus.Token = o.AuthToken
 	stNc := bus.Connect()
 	root := o.RootID
